@@ -17,6 +17,7 @@ import threading
 from fractions import Fraction
 
 from vlib import core
+from vlib import translate
 from vlib.core import g_bool, g_list, g_nat, g_opt, g_pair, g_q, g_z
 
 IMPORTS = "From QV Require Import Eval.Pipeline Eval.ClassicalInst Eval.EvalCheck."
@@ -688,6 +689,7 @@ def corpus_cases():
 
 
 def run(ctx):
+    translate.check_link(ctx, "C03")  # regenerate Gallina from /repo's current source; link lemmas coq/link/C03Link.v
     ctx.rule = ("random classical-instance circuits (x, cx, swap, rx(k*pi), h on fresh qubits; 1-4 qubits) and random non-classical circuits (u/cu/cx with "
                 "random angles, 1-3 qubits) x {operator+sampler, bitstring, operator+estimator} x alpha in {1,1/2,1/4} x optional initial state x wrapper stacks "
                 "{raw, T0, TL, M, B, TL(B), TL(M), T0(B), M(TL), B(TL)} (T0 level-0 preset, TL line coupling map with random initial_layout / wider device / routing, "
@@ -739,6 +741,8 @@ def run(ctx):
 
 
 def replay(ctx, payload):
+    if translate.is_link_replay(payload) and not payload.get("failing_input"):
+        return translate.replay(ctx, payload, "C03")
     c = payload.get("case") or payload.get("failing_input")
     if c.get("probe") == "concurrent-transpile":
         probe_concurrent_transpile(ctx, {k: v for k, v in c.items() if k != "replay_summary"})
